@@ -368,6 +368,7 @@ func (s *Solver) Check() Result {
 	}
 	s.Stats.Queries++
 	s.Stats.Time += time.Since(t0)
+	s.trace("check", "z3", line, time.Since(t0))
 	switch line {
 	case "sat":
 		s.Stats.Sat++
@@ -429,11 +430,19 @@ func (s *Solver) Model(vars []*Term) (map[string]*big.Int, error) {
 	}
 	if s.fbModel != nil {
 		for _, v := range vars {
-			if x, ok := s.fbModel[v.Name]; ok {
-				res[v.Name] = x
-			} else {
-				res[v.Name] = new(big.Int)
+			if v.K == KVar {
+				if x, ok := s.fbModel[v.Name]; ok {
+					res[v.Name] = x
+				} else {
+					res[v.Name] = new(big.Int)
+				}
+				continue
 			}
+			x := Eval(s.C, v, s.fbModel)
+			if x == nil {
+				return nil, fmt.Errorf("cannot evaluate term under fallback model")
+			}
+			res[RefName(v)] = x
 		}
 		return res, nil
 	}
@@ -457,6 +466,14 @@ func (s *Solver) Model(vars []*Term) (map[string]*big.Int, error) {
 	return res, nil
 }
 
+func (s *Solver) trace(kind, backend, res string, d time.Duration) {
+	if traceOn {
+		fmt.Fprintf(os.Stderr, "[smt] %-8s %-14s %-7s %6.2fs asserts=%d\n", kind, backend, res, d.Seconds(), len(s.allAsserts()))
+	}
+}
+
+var traceOn = os.Getenv("GOSX_TRACE") != ""
+
 func (s *Solver) fallback(asserts []*Term, vars []*Term) (Result, map[string]*big.Int) {
 	s.Stats.Fallbacks++
 	t0 := time.Now()
@@ -464,56 +481,125 @@ func (s *Solver) fallback(asserts []*Term, vars []*Term) (Result, map[string]*bi
 	script := Script(s.C, asserts, nil)
 	// ask for all variables so that a model is available afterwards
 	var names []string
-	for n := range s.C.Vars {
+	var allVars []*Term
+	hasUF := strings.Contains(script, "(declare-fun ")
+	for n, v := range s.C.Vars {
 		if strings.Contains(script, quoteName(n)) {
 			names = append(names, quoteName(n))
+			allVars = append(allVars, v)
 		}
 	}
 	if len(names) > 0 {
 		script += "(get-value (" + strings.Join(names, " ") + "))\n"
 	}
-	f, err := os.CreateTemp("", "gosx-fb-*.smt2")
+	dir, err := os.MkdirTemp("", "gosx-fb-")
 	if err != nil {
 		return Unknown, nil
 	}
-	defer os.Remove(f.Name())
-	f.WriteString(script)
-	f.Close()
-	backends := [][]string{
-		{"cvc5", "--solve-bv-as-int=sum", "--produce-models", fmt.Sprintf("--tlimit=%d", s.FbTimeout*1000), f.Name()},
-		{"z3-new", fmt.Sprintf("-T:%d", s.FbTimeout), f.Name()},
-		{"cvc5", "--produce-models", fmt.Sprintf("--tlimit=%d", s.FbTimeout*1000), f.Name()},
+	defer os.RemoveAll(dir)
+	bvFile := dir + "/q.smt2"
+	os.WriteFile(bvFile, []byte(script), 0644)
+	type backend struct {
+		name    string
+		args    []string
+		intMode bool
 	}
+	tl := fmt.Sprintf("--tlimit=%d", s.FbTimeout*1000)
+	backends := []backend{
+		{"cvc5-bv-as-int", []string{"cvc5", "--solve-bv-as-int=sum", "--produce-models", tl, bvFile}, false},
+		{"z3-5.1-bv", []string{"z3-new", fmt.Sprintf("-T:%d", s.FbTimeout), bvFile}, false},
+		{"cvc5-bv", []string{"cvc5", "--produce-models", tl, bvFile}, false},
+	}
+	if is, ok := IntScript(s.C, asserts, allVars); ok {
+		intFile := dir + "/qi.smt2"
+		os.WriteFile(intFile, []byte(is), 0644)
+		backends = append([]backend{
+			{"gosx-int+z3", []string{"z3", fmt.Sprintf("-T:%d", s.FbTimeout), intFile}, true},
+			{"gosx-int+cvc5", []string{"cvc5", "--produce-models", tl, intFile}, true},
+		}, backends...)
+	}
+	type ans struct {
+		b     backend
+		first string
+		txt   string
+	}
+	ch := make(chan ans, len(backends))
+	var cmds []*exec.Cmd
 	for _, b := range backends {
-		out, _ := exec.Command(b[0], b[1:]...).CombinedOutput()
-		txt := string(out)
-		first := strings.TrimSpace(strings.SplitN(txt, "\n", 2)[0])
-		if strings.Contains(txt, "(error") && first != "unsat" {
-			// get-value after unsat yields an error line: ignore that one only
-			s.Errors = append(s.Errors, b[0]+": "+first)
+		cmd := exec.Command(b.args[0], b.args[1:]...)
+		cmds = append(cmds, cmd)
+		go func(cmd *exec.Cmd, b backend) {
+			out, _ := cmd.CombinedOutput()
+			txt := string(out)
+			first := strings.TrimSpace(strings.SplitN(txt, "\n", 2)[0])
+			ch <- ans{b, first, txt}
+		}(cmd, b)
+	}
+	defer func() {
+		for _, c := range cmds {
+			if c.Process != nil {
+				c.Process.Kill()
+			}
+		}
+	}()
+	for range backends {
+		a := <-ch
+		if strings.Contains(a.txt, "(error") && a.first != "unsat" {
+			s.Errors = append(s.Errors, a.b.name+": "+firstErr(a.txt))
 			continue
 		}
-		name := b[0]
-		if len(b) > 1 && strings.HasPrefix(b[1], "--solve") {
-			name = "cvc5-bv-as-int"
-		}
-		switch first {
+		switch a.first {
 		case "unsat":
 			s.Stats.FallbackOK++
-			s.Stats.ByBackend[name]++
+			s.Stats.ByBackend[a.b.name]++
+			s.trace("fallback", a.b.name, "unsat", time.Since(t0))
 			return Unsat, nil
 		case "sat":
-			s.Stats.FallbackOK++
-			s.Stats.ByBackend[name]++
 			m := map[string]*big.Int{}
-			if i := strings.Index(txt, "\n"); i >= 0 {
-				parseValues(txt[i+1:], m)
+			if i := strings.Index(a.txt, "\n"); i >= 0 {
+				parseValues(a.txt[i+1:], m)
 			}
+			if a.b.intMode {
+				// the integer translation is only trusted for sat after the
+				// model satisfies the original bit-vector assertions
+				if hasUF {
+					continue
+				}
+				good := true
+				for _, t := range asserts {
+					v := Eval(s.C, t, m)
+					if v == nil || v.Sign() == 0 {
+						good = false
+						break
+					}
+				}
+				if !good {
+					s.Errors = append(s.Errors, a.b.name+": model does not satisfy the bit-vector query")
+					continue
+				}
+			}
+			s.Stats.FallbackOK++
+			s.Stats.ByBackend[a.b.name]++
 			s.fbModel = m
+			s.trace("fallback", a.b.name, "sat", time.Since(t0))
 			return Sat, m
 		}
 	}
+	s.trace("fallback", "all", "unknown", time.Since(t0))
+	if d := os.Getenv("GOSX_DUMP"); d != "" {
+		os.MkdirAll(d, 0755)
+		os.WriteFile(fmt.Sprintf("%s/unknown-%d.smt2", d, time.Now().UnixNano()), []byte(script), 0644)
+	}
 	return Unknown, nil
+}
+
+func firstErr(txt string) string {
+	for _, l := range strings.Split(txt, "\n") {
+		if strings.Contains(l, "(error") {
+			return l
+		}
+	}
+	return ""
 }
 
 // parseValues parses "((name value) (name value) ...)" into res.
@@ -542,6 +628,11 @@ func parseValues(txt string, res map[string]*big.Int) {
 			}
 		case strings.HasPrefix(v, "#b"):
 			x, ok := new(big.Int).SetString(v[2:], 2)
+			if ok {
+				res[name] = x
+			}
+		case len(v) > 0 && v[0] >= '0' && v[0] <= '9':
+			x, ok := new(big.Int).SetString(v, 10)
 			if ok {
 				res[name] = x
 			}
